@@ -1004,9 +1004,26 @@ func (n *node) sendEnterQuiesceMessages() {
 	}
 }
 
-func (n *node) sendMessages(msgs []pb.Message) {
-	for _, msg := range msgs {
-		if !isFreeOrderMessage(msg) {
+// canSendBeforeSave returns whether the message can be sent before the Update
+// it belongs to is persisted. Replicate messages are sent early (section 10.2.1
+// of the raft thesis) unless they advertise a commit index that covers entries
+// of the same Update that are still to be persisted, which happens when the
+// local replica forms a quorum on its own. Letting such a message out early
+// would allow other replicas to apply entries that are lost if the local
+// replica crashes before the save completes.
+func canSendBeforeSave(m pb.Message, ud pb.Update) bool {
+	if !isFreeOrderMessage(m) {
+		return false
+	}
+	if len(ud.EntriesToSave) > 0 && m.Commit >= ud.EntriesToSave[0].Index {
+		return false
+	}
+	return true
+}
+
+func (n *node) sendMessages(ud pb.Update) {
+	for _, msg := range ud.Messages {
+		if !canSendBeforeSave(msg, ud) {
 			msg.ShardID = n.shardID
 			n.sendRaftMessage(msg)
 		}
@@ -1015,7 +1032,7 @@ func (n *node) sendMessages(msgs []pb.Message) {
 
 func (n *node) sendReplicateMessages(ud pb.Update) {
 	for _, msg := range ud.Messages {
-		if isFreeOrderMessage(msg) {
+		if canSendBeforeSave(msg, ud) {
 			msg.ShardID = n.shardID
 			n.sendRaftMessage(msg)
 		}
@@ -1105,7 +1122,7 @@ func (n *node) processRaftUpdate(ud pb.Update) error {
 	if err := n.logReader.Append(ud.EntriesToSave); err != nil {
 		return err
 	}
-	n.sendMessages(ud.Messages)
+	n.sendMessages(ud)
 	if err := n.removeLog(); err != nil {
 		return err
 	}
